@@ -6,8 +6,10 @@ package inproc
 import (
 	"context"
 	"fmt"
+	"math/rand"
 	"net"
 	"net/http"
+	"os"
 	"sync"
 	"time"
 
@@ -69,6 +71,19 @@ type Broker struct {
 	// traceGate is called at every trace hook (after the event is recorded); it may block: a blocking trace hook is a
 	// scheduler gate at that point of the code
 	traceGate func(ev string, kv map[string]interface{})
+}
+
+var portRand = lockedRand{r: rand.New(rand.NewSource(time.Now().UnixNano() ^ int64(os.Getpid())<<20))}
+
+type lockedRand struct {
+	mu sync.Mutex
+	r  *rand.Rand
+}
+
+func (l *lockedRand) Intn(n int) int {
+	l.mu.Lock()
+	defer l.mu.Unlock()
+	return l.r.Intn(n)
 }
 
 var (
@@ -153,11 +168,20 @@ func start(o Options) (*Broker, error) {
 	once.Do(install)
 	var ln net.Listener
 	var err error
-	for i := 0; i < 240; i++ { // (up to 12 s) ephemeral ports can run out for a moment when hundreds of scenarios churn connections
-		if ln, err = net.Listen("tcp", "127.0.0.1:0"); err == nil {
+	// A listener on port 0 competes with every outgoing connection of the machine for the ephemeral range (32768..60999), which
+	// tens of thousands of short connections keep in TIME_WAIT: listen BELOW that range (a port there is taken only by another
+	// listener), port 0 as the fallback.
+	for i := 0; i < 400; i++ {
+		addr := fmt.Sprintf("127.0.0.1:%d", 10000+portRand.Intn(22000))
+		if i%8 == 7 {
+			addr = "127.0.0.1:0"
+		}
+		if ln, err = net.Listen("tcp", addr); err == nil {
 			break
 		}
-		time.Sleep(50 * time.Millisecond)
+		if i > 40 {
+			time.Sleep(25 * time.Millisecond)
+		}
 	}
 	if err != nil {
 		return nil, err
@@ -168,7 +192,17 @@ func start(o Options) (*Broker, error) {
 	}
 	opts := []server.Options{server.WithConfig(o.Cfg), server.WithTCPListener(ln)}
 	if o.Websocket {
-		wl, err := net.Listen("tcp", "127.0.0.1:0")
+		var wl net.Listener
+		var err error
+		for i := 0; i < 400; i++ {
+			addr := fmt.Sprintf("127.0.0.1:%d", 10000+portRand.Intn(22000))
+			if i%8 == 7 {
+				addr = "127.0.0.1:0"
+			}
+			if wl, err = net.Listen("tcp", addr); err == nil {
+				break
+			}
+		}
 		if err != nil {
 			return nil, err
 		}
